@@ -36,12 +36,27 @@ pub enum Case {
 /// The oracle: `Reader::new` must succeed exactly when `parse_trailer` finds a complete trailer, must never
 /// panic, and must report the independently parsed fields.
 pub fn check_open(b: &[u8]) -> Check<bool> {
+    let r = check_open_with(b, false)?;
+    // the same bytes behind a reader with OS-file seek semantics (offsets beyond i64::MAX are refused) and no
+    // specialised read methods: the verdict may not depend on the reader type
+    let r2 = check_open_with(b, true)?;
+    debug_assert_eq!(r, r2);
+    Ok(r)
+}
+
+fn check_open_with(b: &[u8], file_like: bool) -> Check<bool> {
     let want = fmtdec::parse_trailer(b);
-    let got = catch(|| grenad::Reader::new(Cursor::new(b)).map(|r| (r.file_version(), r.len(), r.compression_type() as u8)));
+    let got = if file_like {
+        let src = crate::ioinstr::Source::file_like(std::rc::Rc::new(b.to_vec()), crate::ioinstr::ctl());
+        catch(|| grenad::Reader::new(src).map(|r| (r.file_version(), r.len(), r.compression_type() as u8)))
+    } else {
+        catch(|| grenad::Reader::new(Cursor::new(b)).map(|r| (r.file_version(), r.len(), r.compression_type() as u8)))
+    };
+    let how = if file_like { " (through a file-like Read+Seek source)" } else { "" };
     match (got, want) {
         (Err(p), _) => Err(Fail::new(
             "c13:panic",
-            format!("Reader::new panicked on {} bytes ending in {}: {}", b.len(), brief(&b[b.len().saturating_sub(24)..]), p),
+            format!("Reader::new panicked{how} on {} bytes ending in {}: {}", b.len(), brief(&b[b.len().saturating_sub(24)..]), p),
         )),
         (Ok(Ok((ver, len, codec))), Ok(t)) => {
             let v = if ver == grenad::FileVersion::FormatV1 { 1 } else { 2 };
@@ -57,12 +72,12 @@ pub fn check_open(b: &[u8]) -> Check<bool> {
         (Ok(Err(_)), Err(_)) => Ok(false),
         (Ok(Ok(_)), Err(why)) => Err(Fail::new(
             "c13:accepted-invalid",
-            format!("Reader::new accepted {} bytes ending in {} although: {}", b.len(), brief(&b[b.len().saturating_sub(24)..]), why),
+            format!("Reader::new accepted{how} {} bytes ending in {} although: {}", b.len(), brief(&b[b.len().saturating_sub(24)..]), why),
         )),
         (Ok(Err(e)), Ok(t)) => Err(Fail::new(
             "c13:rejected-valid",
             format!(
-                "Reader::new rejected ({:?}) {} bytes that end in a complete version-{} trailer {}",
+                "Reader::new rejected{how} ({:?}) {} bytes that end in a complete version-{} trailer {}",
                 e, b.len(), t.version, brief(&b[b.len() - t.size..])
             ),
         )),
@@ -114,7 +129,32 @@ fn synth() -> BoxedStrategy<Case> {
             r[8] = codec;
             r[r.len() - keep.min(r.len())..].to_vec()
         });
-    (vec(any::<u8>(), 0..=30), record, magic).prop_map(|(prefix, record, magic)| Case::Synth { prefix, record, magic }).boxed()
+    // a magic number planted at an arbitrary position of (prefix ‖ record): a scan for "the first magic" goes astray
+    let plant = prop_oneof![2 => Just(None), 1 => (any::<u8>(), any::<bool>()).prop_map(Some)];
+    (vec(any::<u8>(), 0..=30), record, magic, plant)
+        .prop_map(|(mut prefix, mut record, magic, plant)| {
+            if let Some((at, v2)) = plant {
+                let m = if v2 { MAGIC_V2 } else { MAGIC_V1 }.to_le_bytes();
+                let total = prefix.len() + record.len();
+                if total >= 4 {
+                    // positions biased to the last 22 bytes before the magic
+                    let lo = total.saturating_sub(22);
+                    let p = lo + (at as usize) % (total - 3 - lo.min(total - 4)).max(1);
+                    let p = p.min(total - 4);
+                    for (i, byte) in m.iter().enumerate() {
+                        let q = p + i;
+                        if q < prefix.len() {
+                            prefix[q] = *byte;
+                        } else {
+                            // never overwrite the codec byte position check: the predicate decides anyway
+                            record[q - prefix.len()] = *byte;
+                        }
+                    }
+                }
+            }
+            Case::Synth { prefix, record, magic }
+        })
+        .boxed()
 }
 
 impl Prop for C13 {
